@@ -353,6 +353,11 @@ class DirectoryRecord:
         if self.parent is None:
             raise pycdlibexception.PyCdlibInternalError('Invalid call to create new Rock Ridge on root directory')
 
+        if self.dr_len + rockridge.RRCERecord.length() > rockridge.ALLOWED_DR_SIZE:
+            # Even with every other Rock Ridge entry moved to a continuation
+            # area, the CE entry itself has to fit after the identifier.
+            raise pycdlibexception.PyCdlibInvalidInput('Identifier is too long to fit into a directory record with Rock Ridge')
+
         self.rock_ridge = rockridge.RockRidge()
         is_first_dir_record_of_root = self.file_ident == b'\x00' and self.parent.is_root
         bytes_to_skip = 0
@@ -493,6 +498,10 @@ class DirectoryRecord:
             self.dr_len += XARecord.length()
 
         self.dr_len += (self.dr_len % 2)
+
+        if self.dr_len > 255:
+            # The length of a directory record is stored in a single byte.
+            raise pycdlibexception.PyCdlibInvalidInput('Identifier is too long to fit into a directory record')
 
         if self.is_root:
             self._printable_name = '/'.encode(vd.encoding)
